@@ -166,6 +166,7 @@ func c01Case(t *core.T, maxSteps int) {
 	var shape []string
 	reorgRelevant := 0
 	maxDepth := 0
+	revivals, reconnected := 0, 0
 	check := func(when string) bool {
 		if !wd.Settle() {
 			t.Inconclusive("handler did not become idle within 60s " + when)
@@ -185,7 +186,7 @@ func c01Case(t *core.T, maxSteps int) {
 			wd.Logf("-- handler held for %d chain changes", inBurst)
 			shape = append(shape, "B")
 		}
-		switch t.R.Pick(60, 22, 8, 6) {
+		switch t.R.Pick(58, 20, 8, 6, 8) {
 		case 0:
 			b, err := wd.Extend(t.R.Intn(4))
 			if err != nil {
@@ -242,6 +243,20 @@ func c01Case(t *core.T, maxSteps int) {
 			}
 			wd.W.Deliver(b)
 			shape = append(shape, fmt.Sprintf("s%d", k))
+		case 4:
+			// an abandoned branch wins after all: blocks the wallet has seen connected and disconnected
+			// are connected a second time (and may be disconnected again by a later fork or revival)
+			nb, again, err := wd.Revive(t.R.Intn(3))
+			if err != nil {
+				t.Fatalf("revive: %v", err)
+			}
+			if nb == nil {
+				continue
+			}
+			wd.W.Deliver(nb)
+			revivals++
+			reconnected += again
+			shape = append(shape, fmt.Sprintf("r%d", again))
 		case 3:
 			// payments are only made to issued addresses: issuing is a quiescent API action
 			if inBurst > 0 {
@@ -284,6 +299,8 @@ func c01Case(t *core.T, maxSteps int) {
 	t.Max("fork_depth", maxDepth)
 	t.Max("chain_height", int(wd.N.Height()))
 	t.Count("reorgs_disconnecting_wallet_blocks", reorgRelevant)
+	t.Count("revivals_of_abandoned_branches", revivals)
+	t.Count("blocks_connected_a_second_time", reconnected)
 	for _, d := range wd.Disp {
 		t.Count("rolled_back_tx_"+d, 1)
 	}
